@@ -1,26 +1,29 @@
 /-
   C20 — "No request can crash or wedge a node, with production metrics enabled".
-  This file states the top-level theorems of the property.  At present it carries the METRICS part
-  (KB.Props.C20Metrics: every emission call site of the program, regenerated from /repo on every run);
-  the request-level parts (totality of the handlers, serves-after-any-request) are added here by the
-  slices that own the handler model.
+  This file states the top-level theorems of the METRICS part (KB.Props.C20Metrics: every emission call site of
+  the program, regenerated from /repo on every run); the request-level part (totality of the handlers,
+  serves-after-any-request) lives in KB.Props.C20Requests.
 -/
 import KB.Props.C20Metrics
 namespace KB.C20
 open KB KB.Metrics KB.Generated
 
-/-- Metric emission cannot panic because of a metric NAME, a KIND or a LABEL-NAME set, for any sequence
-of executions of the program's emission call sites; the remaining condition is that run-time label
-VALUES (watch key prefix, leader address) are valid UTF-8. -/
-theorem metric_emission_never_panics_partial (g : List Name) (hg : g ∈ metricGlobalLabels)
+/-- Metric emission cannot panic — because of a metric NAME, a KIND, a LABEL-NAME set or a label VALUE — for any
+sequence of executions of the program's emission call sites and arbitrary client data; the one environment
+hypothesis is that the leader address (operator configuration, `KB.C20Metrics.metric_dynamic_label_sites`)
+is valid UTF-8. -/
+theorem metric_emission_never_panics (g : List Name) (hg : g ∈ metricGlobalLabels)
     (seq : List Emission) (hs : ∀ e ∈ seq, Admissible metricSites e)
-    (hdyn : ∀ e ∈ seq, e.site.dynamicLabels ≠ [] → e.valuesValid = true) :
+    (hleader : KB.C20Metrics.LeaderAddressValid seq) :
     (run g Registry.empty seq).isSome = true :=
-  KB.C20Metrics.metrics_never_panic_partial g hg seq hs hdyn
+  KB.C20Metrics.metrics_never_panic g hg seq hs hleader
 
-/-- The unconditional statement (`KB.C20Metrics.MetricsNeverPanic`) is false on the current tree: the key
-of a Watch request is passed verbatim as a label value (finding "metric-label-value-not-utf8"). -/
-theorem metric_emission_full_statement_false : ¬ KB.C20Metrics.MetricsNeverPanic :=
-  KB.C20Metrics.metrics_panic_witness
+/-- Without any hypothesis for executions that stay outside the election / follower-revision code. -/
+theorem metric_emission_never_panics_request_paths (g : List Name) (hg : g ∈ metricGlobalLabels)
+    (seq : List Emission) (hs : ∀ e ∈ seq, Admissible metricSites e)
+    (hpath : ∀ e ∈ seq, e.site.file ≠ "pkg/server/service/leader/leader.go" ∧
+      e.site.file ≠ "pkg/server/service/revision/revision.go") :
+    (run g Registry.empty seq).isSome = true :=
+  KB.C20Metrics.metrics_never_panic_request_paths g hg seq hs hpath
 
 end KB.C20
